@@ -5,8 +5,8 @@ import ScVerif.C01.Opts
 A variadic call `c.Add(id, m, s...)` passes the slice `s` itself: a view (length, capacity) of a backing
 array the caller may share between several calls.  `append(s, xs...)` writes `xs` INTO that array when
 `len(s)+len(xs) ≤ cap(s)` and only otherwise allocates.  This file models exactly that (a heap of arrays,
-views that start at index 0 — the views `opts[:k]` of one option slice), and `Collection.Add` on it, as
-the code is written:
+views `opts[j:k]` of one option slice: offset, length, capacity counted from the offset), and
+`Collection.Add` on it, as the code is written:
 
 ```go
 opts = append([]WriteOption{WithExpectAbsent(), WithCreateIfAbsent()}, opts...)   // destination: a fresh literal
@@ -16,11 +16,12 @@ return c.Update(id, body, opts...)
 namespace ScVerif.C01
 variable {α : Type}
 
-/-- a view `arr[0:len]` with capacity `cap` of array number `arr` of the heap -/
+/-- a view `arr[off : off+len]` with capacity `cap` (counted from `off`) of array number `arr` of the heap -/
 structure Slice where
   arr : Nat
   len : Nat
   cap : Nat
+  off : Nat := 0
   deriving DecidableEq, Repr
 
 /-- the heap: array `i` is the list of its cells (its length is its capacity) -/
@@ -29,7 +30,7 @@ abbrev Heap (α : Type) := List (List α)
 def Heap.cells (h : Heap α) (i : Nat) : List α := h.getD i []
 
 /-- the elements a view denotes -/
-def Heap.read (h : Heap α) (s : Slice) : List α := (h.cells s.arr).take s.len
+def Heap.read (h : Heap α) (s : Slice) : List α := ((h.cells s.arr).drop s.off).take s.len
 
 /-- overwrite `cells[i : i+len xs]` -/
 def writeAt (cells : List α) (i : Nat) (xs : List α) : List α :=
@@ -42,7 +43,7 @@ def literal (h : Heap α) (xs : List α) : Heap α × Slice :=
 /-- Go's `append(s, xs...)` -/
 def goAppend (h : Heap α) (s : Slice) (xs : List α) : Heap α × Slice :=
   if s.len + xs.length ≤ s.cap then
-    (h.set s.arr (writeAt (h.cells s.arr) s.len xs), { s with len := s.len + xs.length })
+    (h.set s.arr (writeAt (h.cells s.arr) (s.off + s.len) xs), { s with len := s.len + xs.length })
   else
     (h ++ [h.read s ++ xs], { arr := h.length, len := s.len + xs.length, cap := s.len + xs.length })
 
